@@ -1,4 +1,29 @@
-"""C16 — work in progress"""
+"""C16 — claim metadata and LBRY URLs encode and decode without loss.
+
+DEDUCTIVE part (the real functions are symbolically executed, every clause is a postcondition from the statement):
+ * envelope — `Signable.to_bytes / from_bytes / is_signed / clear_signature / signing_channel_id / __len__ / __bytes__`
+   (base.py) and `Claim.from_bytes` (claim.py, current-format branch): version byte, 20-byte channel hash, 64-byte signature,
+   message bytes; round trip for every hash, signature and message; behaviour on ARBITRARY input bytes.  protobuf is replaced
+   by fakes whose wire format is an uninterpreted function with inverse (model_for on the generated message classes).
+ * `Support` (support.py) and `Purchase` (purchase.py) completely: accessors, serialisation, parsing, refusal of a wrong
+   start byte, agreement with a plain protobuf parse.
+ * typed accessors of attrs.py that are pure byte/integer plumbing: `ClaimReference` (hex id <-> reversed hash), `Source`
+   hash/name/size/media/url accessors, `Fee` integer units (dewies / satoshis / pennies with their currency), `Location`
+   latitude / longitude getters (each reads its OWN field, whatever the other one holds).
+ * URLs (url.py) — the pattern is the one the running `_create_url_regex()` built, parsed with CPython's own sre parser.
+   `URL.parse`, `URL.__str__`, `URL.parts`, `PathSegment.__str__` are executed on (a) every URL GENERATED FROM THE GRAMMAR
+   written in this file from the statement/spec (48 shapes, names/ids/sequence numbers arbitrary members of their languages):
+   parts, printed form, re-parse; (b) every string OUTSIDE the grammar (any length): ValueError; (c) every flat string of
+   the grammar: accepted.  `re.match` with capture groups inside alternatives is modelled in this file (see
+   `_re_match_ext`): expansion of the real pattern into alternatives, solver obligations that the alternatives are pairwise
+   disjoint, complete and each split uniquely, and a per-path obligation that the split taken is valid.
+BOUNDED stand-ins (labelled `bounded_only`; CPython + real protobuf): claims of the four types assembled through
+`update()` and through the setters (attrs.py / claim.py plumbing), all language tags of the schema, raw hash accessors, tags,
+the two legacy encodings (compat.py) incl. recorded upstream vectors.
+KNOWN FINDINGS of the pinned tree, excluded from the deductive preconditions where they apply and reported by bounded
+proofs: F11 (URL + final newline accepted), F16.2 (regions RE/RO/RS/RU/RW mangled), F16.3 (bt_infohash_bytes getter),
+F16.4 (legacy JSON float fee amounts).
+"""
 from pyvc.api import *
 from pyvc.speclib import implies, matches
 from binascii import hexlify, unhexlify
@@ -68,6 +93,18 @@ def _m_bytes(interp, st, args, kwargs):
             yield from interp.call(st, VConst(m), [args[0]], {})
             return
     yield from _b2.t_bytes(interp, st, args, kwargs)
+
+
+@model_for(str)
+def _m_str(interp, st, args, kwargs):
+    """str(x) of a NamedTuple instance whose class defines __str__ (URL, PathSegment) runs that method
+    (engine gap /tmp/engine_gaps/C16_3.py: pyvc answers with an unconstrained string); everything else is passed on"""
+    if len(args) == 1 and not kwargs and isinstance(args[0], VTuple) and args[0].cls is not None:
+        m = interp.class_attr(args[0].cls, '__str__')
+        if m is not None and m is not tuple.__str__:
+            yield from interp.call(st, VConst(m), [args[0]], {})
+            return
+    yield from _b2.t_str(interp, st, args, kwargs)
 
 
 # ---- protobuf: SerializeToString / ParseFromString as an uninterpreted inverse pair -----------------
@@ -221,6 +258,13 @@ model_for(PurchaseMessage)(_fake(FakePurchaseMessage))
 # Envelope (lbry/schema/base.py Signable, lbry/schema/claim.py Claim.from_bytes)
 # ====================================================================================================
 
+def plain_reserialize(cls, data):
+    """what a plain protobuf parse of `data` holds, as canonical message bytes (specification side)"""
+    m = cls()
+    m.ParseFromString(data)
+    return m.SerializeToString()
+
+
 def _some_claim_payloads():
     from lbry.schema.claim import Stream, Channel
     out = [b'']
@@ -311,6 +355,10 @@ class EnvelopeFromBytes:
     def ensures_only_known_versions_accepted(data, result):
         return data[0] == 0 or data[0] == 1
 
+    def ensures_message_is_what_the_bytes_hold(data, result):
+        rest = data[85:] if data[0] == 1 else data[1:]
+        return pb_ok('support', rest) and result[4] == plain_reserialize(SupportMessage, rest)
+
     raises = {DecodeError: lambda data: len(data) > 0 and (data[0] > 1 or not pb_ok('support', data[85:] if data[0] == 1 else data[1:])),
               IndexError: lambda data: len(data) == 0}
 
@@ -323,6 +371,45 @@ class EnvelopeFromBytes:
                 for tail in (b'', good, b'\xff\xff'):
                     yield dict(data=bytes([first]) + bytes((7 * i + 1) % 256 for i in range(n)) + tail)
         yield dict(data=b'')
+
+
+@proof("C16", "envelope.claim_from_bytes")
+class ClaimFromBytesCurrentFormat:
+    """Claim.from_bytes on ARBITRARY bytes that start with a current-format version byte (0 or 1): same reading of the envelope
+    as above, version stays 2, and a message that does not parse is refused with DecodeError — never handed to a legacy decoder"""
+    inputs = dict(data=TBytes(minlen=1))
+    timeout = 4
+    note = "first byte 0/1 x lengths 1, 2, 21, 85, 86, 120 with valid and invalid message bytes"
+
+    def requires(data):
+        return data[0] <= 1
+
+    def run(data):
+        c = Claim.from_bytes(data)
+        return c.is_signed, c.signing_channel_hash, c.signature, c.version, c.to_bytes(), c.message.SerializeToString()
+
+    def ensures_unsigned(data, result):
+        return implies(data[0] == 0, not result[0] and result[1] is None and result[2] is None and result[4] == b'\x00' + result[5])
+
+    def ensures_signed(data, result):
+        return implies(data[0] == 1, result[0] and result[1] == data[1:21] and result[2] == data[21:85]
+                       and result[4] == data[:85] + result[5])
+
+    def ensures_current_version(result):
+        return result[3] == 2
+
+    def ensures_message_is_what_the_bytes_hold(data, result):
+        rest = data[85:] if data[0] == 1 else data[1:]
+        return pb_ok('claim', rest) and result[5] == plain_reserialize(ClaimMessage, rest)
+
+    raises = {DecodeError: lambda data: not pb_ok('claim', data[85:] if data[0] == 1 else data[1:])}
+
+    def samples():
+        good = _some_claim_payloads()[1]
+        for first in (0, 1):
+            for n in (0, 1, 20, 84, 85, 119):
+                for tail in (b'', good, b'\xff\xff'):
+                    yield dict(data=bytes([first]) + bytes((7 * i + 1) % 256 for i in range(n)) + tail)
 
 
 def make_support_proof(signed):
@@ -425,6 +512,11 @@ class PurchaseFromBytes:
 
     def ensures_start_byte_was_P(data, result):
         return len(data) > 0 and data[0] == 80
+
+    def ensures_message_is_what_the_bytes_hold(data, result):
+        plain = PurchaseMessage()
+        plain.ParseFromString(data[1:])
+        return result == plain.claim_hash
 
     raises = {DecodeError: lambda data: len(data) == 0 or data[0] != 80 or not pb_ok('purchase', data[1:])}
 
@@ -551,6 +643,7 @@ class SourceHashes:
     the three hashes and the other source fields do not disturb each other"""
     inputs = dict(sd=TStr(), fh=TStr(), bt=TStr(), name=TStr(), size=TInt(0, 2 ** 64 - 1), media=TStr(), url=TStr(),
                   raw=TBytes(length=48))
+    timeout = 4     # immediate for cvc5, hopeless for z3 (three independent hex strings): do not wait for z3
 
     def requires(sd, fh, bt):
         return (matches(sd, HEXSTAR) and len(sd) == 96 and matches(fh, HEXSTAR) and len(fh) == 96
@@ -661,6 +754,1366 @@ class FeeUnits:
                     yield dict(n=n, unit=unit, before=before, n0=5)
 
 
-TRUSTED = []
-NOT_DECIDED = []
-ASSUMPTIONS = []
+# ---- decimal.Decimal as the GPS getters use it: Decimal(int) / Decimal constant, then str() --------------------------------
+from decimal import Decimal as _Decimal        # noqa: E402
+from lbry.schema.attrs import Location          # noqa: E402
+
+
+class _Dec:
+    """Decimal(units) [/ constant]: only carried around and printed"""
+
+    def __init__(self, units):
+        self.units = units
+        self.den = None
+
+    def __truediv__(self, other):
+        d = _Dec(self.units)
+        d.den = other
+        return d
+
+    def __str__(self):
+        return _dec_str(self.units, self.den)
+
+
+def _dec_str(units, den):
+    raise NotImplementedError("symbolic only")
+
+
+def gps_units(s):
+    """the number of 1e-7 degree units a decimal string denotes (specification side; natively exact Decimal arithmetic)"""
+    return int(_Decimal(s) * 10 ** 7)
+
+
+def _den_name(den):
+    return 'none' if den is None else ''.join(ch if ch.isalnum() else '_' for ch in str(den))
+
+
+@model_for(_Decimal)
+def _m_decimal(interp, st, args, kwargs):
+    if len(args) == 1 and not kwargs and isinstance(args[0], VInt) and not args[0].concrete:
+        yield from interp.call(st, VConst(_Dec), [args[0]], {})
+        return
+    try:
+        na = [unlift(a) for a in args]
+    except NotConcrete:
+        raise Unsupported("Decimal(...) of this symbolic argument")
+    try:
+        yield st, VConst(_Decimal(*na))
+    except Exception as e:      # noqa
+        yield st, exc(type(e) if isinstance(e, (ValueError, TypeError)) else ValueError, str(e))
+
+
+@model_for(_dec_str)
+def _m_dec_str(interp, st, args, kwargs):
+    """str(Decimal(n) / d) for a constant d: an uninterpreted string of n whose exact decimal value is n / d (n has at most 19
+    digits here, Decimal's 28-digit context does not round), stated through the inverse `units` function"""
+    den = unlift(args[1])
+    n = args[0].term()
+    t = _uf(f"decimal_str_over_{_den_name(den)}", z3.IntSort(), z3.StringSort())(n)
+    st.assume(_uf(f"decimal_units_{_den_name(den)}", z3.StringSort(), z3.IntSort())(t) == n)
+    interp.builtins_used.add("decimal.Decimal(int) / constant -> str (uninterpreted, with exact inverse)")
+    yield st, VStr(t)
+
+
+@model_for(gps_units)
+def _m_gps_units(interp, st, args, kwargs):
+    s = args[0]
+    if s.concrete:
+        yield st, VInt(gps_units(s.v))
+        return
+    yield st, VInt(_uf("decimal_units_10000000", z3.StringSort(), z3.IntSort())(s.term()))
+
+
+class FakeLocation:
+    def __init__(self, latitude, longitude):
+        self.country = 0
+        self.state = ''
+        self.city = ''
+        self.code = ''
+        self.latitude = latitude
+        self.longitude = longitude
+
+
+@proof("C16", "attrs.location-gps")
+class LocationGps:
+    """GPS getters of a location: each coordinate getter returns the value of ITS OWN field (as a decimal string denoting
+    exactly field / 10**7 degrees) whenever that field is non-zero, for ARBITRARY values of the other field; a zero field reads
+    None (proto3 default)"""
+    inputs = dict(lat=TInt(-900000000, 900000000), lon=TInt(-1800000000, 1800000000))
+    note = "latitude x longitude over 0, +-1 unit, +-42.990605, +-90 / +-180 degrees (81 pairs)"
+
+    def run(lat, lon):
+        loc = Location(FakeLocation(lat, lon))
+        return loc.latitude, loc.longitude
+
+    def ensures_latitude_is_own_field(lat, result):
+        if lat == 0:
+            return result[0] is None
+        return result[0] is not None and gps_units(result[0]) == lat
+
+    def ensures_longitude_is_own_field(lon, result):
+        if lon == 0:
+            return result[1] is None
+        return result[1] is not None and gps_units(result[1]) == lon
+
+    def samples():
+        lats = (0, 1, -1, 429906050, -429906050, 900000000, -900000000, 5, -335000000)
+        lons = (0, 1, -1, 714609890, -714609890, 1800000000, -1800000000, 1512500000, -7)
+        for lat in lats:
+            for lon in lons:
+                yield dict(lat=lat, lon=lon)
+
+
+# ====================================================================================================
+# re.match for patterns whose capture groups sit inside alternations / optional non-capturing groups
+# (engine gap /tmp/engine_gaps/C16_2.py: pyvc.regex extracts groups only from a top-level concatenation)
+# ====================================================================================================
+import re as _re                                # noqa: E402
+from pyvc import regex as _rx, smt as _smt      # noqa: E402
+from pyvc.engine import Obligation as _Obligation   # noqa: E402
+
+_sc = _rx.sre_c
+
+
+def use_extended_regex_model():
+    """Natively nothing.  Symbolically: for the rest of this proof `re.match` on patterns with capture groups below the top
+    level is handled by `_re_match_ext` (everything else is passed on to pyvc.regex unchanged)."""
+    return None
+
+
+@model_for(use_extended_regex_model)
+def _m_use_ext(interp, st, args, kwargs):
+    interp.models[_re.match] = _re_match_ext
+    yield st, VNone
+
+
+def _expand(items):
+    """top-level items -> list of alternatives (priority order); in an alternative every item is group-free or a capture
+    group without nested groups.  Optional groups and branches that contain capture groups are expanded."""
+    alts = [[]]
+    for it in items:
+        op, av = it
+        if _rx._count_groups([it]) == 0:
+            choices = [[it]]
+        elif op is _sc.SUBPATTERN and av[0] is not None and _rx._count_groups(av[3]) == 0 and not av[1] and not av[2]:
+            choices = [[it]]
+        elif op is _sc.SUBPATTERN and av[0] is None and not av[1] and not av[2]:
+            choices = _expand(list(av[3]))
+        elif op is _sc.MAX_REPEAT and av[0] == 0 and av[1] == 1:
+            choices = _expand(list(av[2])) + [[]]
+        elif op is _sc.BRANCH:
+            choices = []
+            for alt in av[1]:
+                choices += _expand(list(alt))
+        else:
+            raise Unsupported(f"capture group inside regex construct {op}")
+        alts = [a + c for a in alts for c in choices]
+        if len(alts) > 64:
+            raise Unsupported("more than 64 regex alternatives")
+    return alts
+
+
+class _AltView:
+    """what pyvc.regex.syntactically_unambiguous reads of a parsed pattern, for one alternative"""
+
+    def __init__(self, P, items):
+        self.items, self.is_bytes, self.flags, self.end_kind = items, P.is_bytes, P.flags, P.end_kind
+
+
+class _Ext:
+    def __init__(self, pattern):
+        P = _rx.parsed(pattern)
+        self.P = P
+        self.pattern = pattern
+        self.alts = _expand(P.items)
+        self.tail = P.end_kind == '$'
+        self.parts = []         # per alternative: [(gid | None, z3 regex)]
+        self.langs = []         # per alternative: z3 regex including the optional final newline of '$'
+        nl = z3.Option(z3.Re(mk_str('\n')))
+        for alt in self.alts:
+            if not _rx.syntactically_unambiguous(_AltView(P, alt), 'match'):
+                raise Unsupported("a regex alternative does not split uniquely (syntactic class-disjointness check)")
+            groups = []
+            for it in alt:
+                if it[0] is _sc.SUBPATTERN and it[1][0] is not None:
+                    groups.append((it[1][0], list(it[1][3])))
+                elif groups and groups[-1][0] is None:
+                    groups[-1] = (None, groups[-1][1] + [it])
+                else:
+                    groups.append((None, [it]))
+            self.parts.append([(g, _rx.seq_to_re(items, P.is_bytes, P.flags)) for g, items in groups])
+            body = _rx.seq_to_re(alt, P.is_bytes, P.flags)
+            self.langs.append(z3.Concat(body, nl) if self.tail else body)
+        self.lang = P.language('match')
+
+
+_EXT = {}
+
+
+def _ext_for(pattern):
+    if pattern not in _EXT:
+        _EXT[pattern] = _Ext(pattern)
+    return _EXT[pattern]
+
+
+def _ext_side_obligations(interp, X):
+    """the alternatives are pairwise disjoint languages (so Python's backtracking priority is irrelevant: with the unique
+    split of each alternative there is at most one way to match) and together they are the language of the pattern"""
+    seen = interp.__dict__.setdefault('_c16_ext_patterns', [])
+    if X.pattern in seen:
+        return
+    seen.append(X.pattern)
+    base = f"{interp.current}::regex-alternatives" + (f"[p{len(seen) - 1}]" if len(seen) > 1 else "")
+    w = z3.String('w!alt')
+    for k in range(1, len(X.langs)):
+        earlier = z3.Union(*X.langs[:k]) if k > 1 else X.langs[0]
+        interp.obligations.append(_Obligation(f"{base}-disjoint[{k}]", [], z3.Not(z3.And(z3.InRe(w, X.langs[k]), z3.InRe(w, earlier))),
+                                              'side'))
+    allof = z3.Union(*X.langs) if len(X.langs) > 1 else X.langs[0]
+    interp.obligations.append(_Obligation(f"{base}-complete", [], z3.InRe(w, X.lang) == z3.InRe(w, allof), 'side'))
+    interp.assumptions.add(f"regex {X.pattern.pattern!r}: expanded into {len(X.langs)} alternatives, each splitting uniquely "
+                           f"(syntactic class-disjointness check), pairwise disjoint and complete (solver obligations)")
+
+
+def _pieces(t):
+    if z3.is_app(t) and t.decl().kind() == z3.Z3_OP_SEQ_CONCAT:
+        out = []
+        for c in t.children():
+            for p in _pieces(c):
+                if p[0] == 'lit' and out and out[-1][0] == 'lit':
+                    out[-1] = ('lit', out[-1][1] + p[1])
+                elif p[0] == 'lit' and not p[1]:
+                    continue
+                else:
+                    out.append(p)
+        return out
+    if z3.is_string_value(t):
+        return [('lit', unescape_smt(t.as_string()))]
+    return [('var', t)]
+
+
+def _match_object(st, P, s, whole, gvals):
+    groups = VTuple([gvals.get(g, VNone) for g in range(1, P.ngroups + 1)])
+    names = st.alloc(HDict({k: VInt(v) for k, v in P.groupindex.items()}))
+    return st.alloc(HObj(_rx.MatchModel, dict(string=whole, _groups=groups, _names=names)))
+
+
+def _structured_split(interp, st, X, s, pieces):
+    """Guess the split from one concrete instance with CPython's own `re`, express it on the pieces of the subject, and
+    leave its validity for EVERY instance as a proof obligation.  Returns (k, part terms, tail term) or None."""
+    variables = [p[1] for p in pieces if p[0] == 'var']
+    res = None
+    for extra in ([z3.Length(v) > 0 for v in variables], []):
+        # prefer an instance in which no symbolic piece is empty (an empty piece cannot be attributed to a part; pieces that are
+        # empty in the instance are left out of every part, and the obligation below then demands that they are always empty)
+        res = _smt.solve_text(_smt.to_smt2(list(st.pc) + extra, None), 'regex-sample', timeout=20,
+                              want_values=[v.sexpr() for v in variables])
+        if res.status == 'sat' or not extra or not variables:
+            break
+    if res.status != 'sat':
+        return None
+    vals = _smt.parse_values(res.model_text)
+    if vals is None or len(vals) != len(variables) or not all(isinstance(v, str) for v in vals):
+        return None
+    vals = list(vals)
+    conc = []
+    for p in pieces:
+        conc.append(p[1] if p[0] == 'lit' else vals.pop(0))
+    c = ''.join(conc)
+    m = X.pattern.match(c)
+    if m is None:
+        return None
+    gset = {g for g in range(1, X.P.ngroups + 1) if m.group(g) is not None}
+    cand = [k for k, parts in enumerate(X.parts) if {g for g, _ in parts if g is not None} == gset]
+    if len(cand) != 1:
+        return None
+    k = cand[0]
+    parts = X.parts[k]
+    # spans of the parts in c
+    spans = []
+    pos = 0
+    for i, (g, _) in enumerate(parts):
+        if g is not None:
+            a, b = m.span(g)
+        else:
+            a = pos
+            nxt = [m.span(g2)[0] for g2, _ in parts[i + 1:] if g2 is not None]
+            b = nxt[0] if nxt else m.end()
+        if a != pos or b < a:
+            return None
+        spans.append((a, b))
+        pos = b
+    if pos != m.end() or c[pos:] not in ('', '\n'):
+        return None
+    # express [a, b) on the pieces
+    offs = [0]
+    for x in conc:
+        offs.append(offs[-1] + len(x))
+
+    def cut(a, b):
+        out = []
+        for i, p in enumerate(pieces):
+            lo, hi = max(a, offs[i]), min(b, offs[i + 1])
+            if lo >= hi:
+                continue
+            if p[0] == 'lit':
+                out.append(mk_str(p[1][lo - offs[i]:hi - offs[i]]))
+            elif lo == offs[i] and hi == offs[i + 1]:
+                out.append(p[1])
+            else:
+                return None         # the cut falls inside a symbolic piece
+        if not out:
+            return mk_str('')
+        return z3.Concat(*out) if len(out) > 1 else out[0]
+    terms = [cut(a, b) for a, b in spans]
+    tail = cut(pos, len(c))
+    if tail is None or any(t is None for t in terms):
+        return None
+    return k, terms, tail
+
+
+def _re_match_ext(interp, st, args, kwargs):
+    pat, s = args[0], args[1]
+    flags = unlift(args[2]) if len(args) > 2 else unlift(kwargs.get('flags', VInt(0)))
+    p = unlift(pat)
+    if not isinstance(p, _re.Pattern):
+        p = _re.compile(p, flags)
+    P = _rx.parsed(p)
+    simple = all(_rx._count_groups([it]) == 0 or (it[0] is _sc.SUBPATTERN and it[1][0] is not None) or
+                 (it[0] is _sc.MAX_REPEAT and len(it[1][2]) == 1 and it[1][2][0][0] is _sc.SUBPATTERN) for it in P.items)
+    if not isinstance(s, VStr) or s.concrete or P.ngroups == 0 or simple or not P.anch_start or P.end_kind is None or P.is_bytes:
+        yield from _rx.do_match(interp, st, p, s, 'match')
+        return
+    X = _ext_for(p)
+    _ext_side_obligations(interp, X)
+    interp.builtins_used.add("re.match (capture groups inside alternatives: contracts/c16.py)")
+    t = s.term()
+    nl = z3.Option(z3.Re(mk_str('\n')))
+    pieces = _pieces(t)
+    if len(pieces) > 1 or (pieces and pieces[0][0] == 'lit'):
+        got = _structured_split(interp, st, X, s, pieces)
+        if got is not None:
+            k, terms, tail = got
+            goal = z3.And(*([t == z3.Concat(*(terms + [tail]))] + [z3.InRe(x, r) for x, (g, r) in zip(terms, X.parts[k])] +
+                            [z3.InRe(tail, nl if X.tail else z3.Re(mk_str('')))]))
+            interp.oblige(st, f"regex-split-valid[{k}]", goal, 'side')
+            gvals = {g: VStr(x) for x, (g, r) in zip(terms, X.parts[k]) if g is not None}
+            whole = VStr(z3.Concat(*terms)) if len(terms) > 1 else VStr(terms[0])
+            yield st, _match_object(st, P, s, whole, gvals)
+            return
+    # unstructured subject: no match, or one path per alternative.  The parts are fresh strings known only to lie in the
+    # languages of their groups (the equation subject == concatenation of the parts is NOT asserted: solvers cannot use it,
+    # and leaving it out only admits more behaviours, which is sound for the universally quantified clauses proved here).
+    # Every alternative is followed (no solver call here: generation stays deterministic); the infeasible ones end in
+    # obligations whose path condition is contradictory at the level of regular languages.
+    s_no = st.copy()
+    if s_no.assume(z3.Not(z3.InRe(t, X.lang))):
+        yield s_no, VNone
+    if not st.assume(z3.InRe(t, X.lang)):
+        return
+    for k, parts in enumerate(X.parts):
+        sk = st.copy()
+        if not sk.assume(z3.InRe(t, X.langs[k])):
+            continue
+        xs = [z3.String(fresh_name(f"g{k}_")) for _ in parts]
+        for x, (g, r) in zip(xs, parts):
+            sk.assume(z3.InRe(x, r))
+        gvals = {g: VStr(x) for x, (g, r) in zip(xs, parts) if g is not None}
+        yield sk, _match_object(sk, P, s, VStr(z3.String(fresh_name(f"g{k}_whole"))), gvals)
+
+
+# ====================================================================================================
+# LBRY URLs (lbry/schema/url.py)
+# ====================================================================================================
+from lbry.schema.url import URL, PathSegment        # noqa: E402
+
+# Grammar written from the statement / https://spec.lbry.com (URL section), independently of _create_url_regex():
+#   URL      := 'lbry://'? ( Channel | Stream | Channel '/' Stream )
+#   Channel  := '@' Name Modifier?          Stream := Name Modifier?
+#   Modifier := (':' | '#') Hex{1,40}  |  '$' PositiveInteger
+#   Name     := one or more characters other than  = & # : $ @ % ? ; " / \ < > { } | ^ ~ ` [ ]  , the controls and space
+#               U+0000..U+0020, surrogates U+D800..U+DFFF and the non-characters U+FFFE, U+FFFF
+NAME = '[^=&#:$@%?;"/\\\\<>{}|^~`\\[\\]\\x00-\\x20\\ud800-\\udfff\\ufffe\\uffff]+'
+CLAIM_ID = '[0-9a-f]{1,40}'
+SEQUENCE = '[1-9][0-9]*'
+MODIFIER = '(?:[:#]' + CLAIM_ID + '|\\$' + SEQUENCE + ')?'
+GRAMMAR = '(?:lbry://)?(?:@' + NAME + MODIFIER + '(?:/' + NAME + MODIFIER + ')?|' + NAME + MODIFIER + ')'
+GRAMMAR_NL = GRAMMAR + '\\n?'
+
+
+def in_grammar(u):
+    return isinstance(u, str) and _re.fullmatch(GRAMMAR, u) is not None
+
+
+def f11_final_newline(u):
+    """known finding F11: a valid URL followed by one newline is accepted (`$` matches before a final newline)"""
+    return isinstance(u, str) and u.endswith('\n') and in_grammar(u[:-1])
+
+
+NEAR_URLS = [
+    # from the upstream negative tests and the statement: one forbidden character / malformed modifier
+    '', 'lbry://', 'lbry:///', 'lbry://@', '@', '@/what', 'lbry://@/what', '/', 'a/b', 'lbry://test/path', '@a/@b', '@a/b/c', '@a//b',
+    'lbry://test:3$1', 'lbry://test$1:1', 'lbry://test#x', 'lbry://test#x/page', 'lbry://test$', 'lbry://test#', 'lbry://test:',
+    'lbry://test$x', 'lbry://test:x', 'lbry://@test@', 'lbry://@test:', 'lbry://test@', 'lbry://tes@t', 'lbry://test$0', 'lbry://test$01',
+    'lbry://test:1:1:1', 'whatever/lbry://test', 'lbry://lbry://test', 'lbry://abc:0x123', 'lbry://abc:0x123/page',
+    'lbry://@test1#ABCDEF/fakepath', 'lbry://@test1$1/fakepath?arg1&arg2&arg3', 'lbry://test:' + 'a' * 41, 'test#' + '0' * 41,
+    'lbry://test:A', 'test$-1', 'test$1.0', 'test$+1', 'test$١', 'test:１', 'LBRY://test', 'lbry:/test', 'lbry:test', ' lbry://test',
+    'lbry://test ', 'lbry://te st', 'lbry://test\t', 'lbry://test\r', 'lbry://test\r\n', 'lbry://test\n\n', '\nlbry://test', 'lbry://te\nst',
+    'lbry://test\x00', 'lbry://test\x0b', 'lbry://test\x0c', 'lbry://test\x1f', 'lbry://test\x20', 'lbry://\ud800', 'lbry://\udfff', 'lbry://￾',
+    'lbry://￿', 'lbry://a\ud800b', '\n', 'lbry://\n', '@\n', 'test:\n', 'test$\n', 'test:1\n\n', 'a\n/b',
+]
+FORBIDDEN_CHARS = '=&#:$@%?;"/\\<>{}|^~`[]' + ''.join(chr(c) for c in range(0x21)) + '\ud800􏰀\udfff￾￿'
+NAME_POOL = ['a', 'test', 'test*1', 'lbry', '123', 'deadbeef', '퟿', '', '�', 'été', '中文', '\U0001F600', '\U0010FFFF',
+             'a.b-c_d', "it's", '!()*+,', '\x21', '\x7f', '\u0085', ' ', ' ', 'x' * 300, 'Á']
+ID_POOL = ['1', 'a', '0', 'f' * 40, '63f2da17b0d90042c559cc73b6b17f853945c43e', '0123456789abcdef', '00']
+SEQ_POOL = ['1', '9', '10', '1234567890' * 4]
+
+
+def build_url(scheme, shape, cmod, smod, chan, cval, stream, sval):
+    """the production of the grammar for the given parts (specification side)"""
+    u = 'lbry://' if scheme else ''
+    if shape != 'stream':
+        u = u + '@' + chan + cmod + cval
+    if shape == 'channel/stream':
+        u = u + '/'
+    if shape != 'channel':
+        u = u + stream + smod + sval
+    return u
+
+
+def modifier_ok(mod, val):
+    if mod == '':
+        return val == ''
+    if mod == '$':
+        return matches(val, SEQUENCE)
+    return matches(val, CLAIM_ID)
+
+
+def expected_segment(name, mod, val):
+    return (name, val if mod in (':', '#') else None, val if mod == '$' else None)
+
+
+def segment_fields(seg):
+    if seg is None:
+        return None
+    return (seg.name, seg.claim_id, None if seg.amount_order is None else str(seg.amount_order))
+
+
+def url_shapes():
+    for scheme in (True, False):
+        for shape in ('channel', 'stream', 'channel/stream'):
+            for cmod in ('', ':', '#', '$') if shape != 'stream' else ('',):
+                for smod in ('', ':', '#', '$') if shape != 'channel' else ('',):
+                    yield scheme, shape, cmod, smod
+
+
+_MODS = TOneOf(TConst(''), TConst(':'), TConst('#'), TConst('$'))
+
+
+@proof("C16", "url.parse-print")
+class UrlParsePrint:
+    """every URL GENERATED FROM THE GRAMMAR (48 shapes: scheme or not; channel, stream or channel/stream; each claim without
+    modifier or with ':'id, '#'id, '$'sequence; names, ids and sequence numbers arbitrary strings of their languages, any length):
+    URL.parse returns exactly these parts; str() prints the canonical form 'lbry://' + parts with ':' before claim ids, which is
+    the same URL whenever the URL was written that way; parsing what was printed gives the same parts again"""
+    inputs = dict(scheme=TOneOf(TConst(True), TConst(False)),
+                  shape=TOneOf(TConst('channel'), TConst('stream'), TConst('channel/stream')),
+                  cmod=_MODS, smod=_MODS, chan=TStr(), cval=TStr(), stream=TStr(), sval=TStr())
+    timeout = 10    # per-solver budget (z3 5.1 decides these regular-language queries in milliseconds; z3 4.8 / cvc5 often cannot)
+    note = "48 shapes x names (ASCII, punctuation, U+D7FF/U+E000/U+FFFD edges, CJK, astral, 300 chars) x ids (1..40 hex) x sequences"
+
+    def requires(shape, cmod, smod, chan, cval, stream, sval):
+        ok = True
+        if shape != 'stream':
+            ok = ok and matches(chan, NAME) and modifier_ok(cmod, cval)
+        else:
+            ok = ok and cmod == '' and chan == '' and cval == ''
+        if shape != 'channel':
+            ok = ok and matches(stream, NAME) and modifier_ok(smod, sval)
+        else:
+            ok = ok and smod == '' and stream == '' and sval == ''
+        return ok
+
+    def run(scheme, shape, cmod, smod, chan, cval, stream, sval):
+        use_extended_regex_model()
+        u = build_url(scheme, shape, cmod, smod, chan, cval, stream, sval)
+        url = URL.parse(u)
+        printed = str(url)
+        again = URL.parse(printed)
+        return (u, segment_fields(url.channel), segment_fields(url.stream), printed,
+                segment_fields(again.channel), segment_fields(again.stream),
+                (url.has_channel, url.has_stream, url.has_stream_in_channel), len(url.parts))
+
+    def ensures_channel_part(shape, cmod, chan, cval, result):
+        if shape == 'stream':
+            return result[1] is None
+        return result[1] == expected_segment('@' + chan, cmod, cval)
+
+    def ensures_stream_part(shape, smod, stream, sval, result):
+        if shape == 'channel':
+            return result[2] is None
+        return result[2] == expected_segment(stream, smod, sval)
+
+    def ensures_prints_canonical_form(shape, cmod, smod, chan, cval, stream, sval, result):
+        return result[3] == build_url(True, shape, ':' if cmod == '#' else cmod, ':' if smod == '#' else smod, chan, cval, stream, sval)
+
+    def ensures_prints_same_url_when_written_canonically(scheme, cmod, smod, result):
+        return implies(scheme and cmod != '#' and smod != '#', result[3] == result[0])
+
+    def ensures_reparse_gives_same_parts(result):
+        return result[4] == result[1] and result[5] == result[2]
+
+    def ensures_flags(shape, result):
+        return result[6] == (shape != 'stream', shape != 'channel', shape == 'channel/stream') and \
+            result[7] == (2 if shape == 'channel/stream' else 1)
+
+    def samples():
+        import random
+        r = random.Random(16)
+        for scheme, shape, cmod, smod in url_shapes():
+            for k in range(12):
+                chan, stream = r.choice(NAME_POOL), r.choice(NAME_POOL)
+                cval = '' if cmod == '' else r.choice(SEQ_POOL if cmod == '$' else ID_POOL)
+                sval = '' if smod == '' else r.choice(SEQ_POOL if smod == '$' else ID_POOL)
+                yield dict(scheme=scheme, shape=shape, cmod=cmod, smod=smod, chan=chan if shape != 'stream' else '',
+                           cval=cval if shape != 'stream' else '', stream=stream if shape != 'channel' else '',
+                           sval=sval if shape != 'channel' else '')
+        for name in NAME_POOL:
+            yield dict(scheme=True, shape='stream', cmod='', smod='', chan='', cval='', stream=name, sval='')
+            yield dict(scheme=False, shape='channel', cmod='', smod='', chan=name, cval='', stream='', sval='')
+
+
+@proof("C16", "url.rejects")
+class UrlRejects:
+    """every string the grammar forbids is rejected with ValueError, for strings of any length.  The known finding F11 (a valid
+    URL followed by one newline is accepted) is excluded here and reported by url.rejects-final-newline."""
+    inputs = dict(u=TStr())
+    timeout = 10    # per-solver budget (z3 5.1 decides these regular-language queries in milliseconds; z3 4.8 / cvc5 often cannot)
+    note = "78 near-grammar strings; every forbidden character inserted at the start, middle and end of 6 valid URLs"
+
+    def requires(u):
+        return not matches(u, GRAMMAR_NL)
+
+    def run(u):
+        use_extended_regex_model()
+        return URL.parse(u)
+
+    def ensures_never_returns(result):
+        return False
+
+    raises = {ValueError: True}
+
+    def samples():
+        for u in NEAR_URLS:
+            yield dict(u=u)
+        for base in ('lbry://test', 'test', '@chan', 'lbry://@chan:1/stream$2', '@c#ab/s', 'lbry://中文'):
+            for ch in FORBIDDEN_CHARS:
+                for pos in (0, len(base) // 2 + 1, len(base)):
+                    yield dict(u=base[:pos] + ch + base[pos:])
+
+
+@proof("C16", "url.accepts")
+class UrlAccepts:
+    """every string of the grammar (as a flat string, not built from parts) is accepted; it has a channel part exactly when it
+    contains '@' and both parts exactly when it contains '/' after the scheme"""
+    inputs = dict(u=TStr())
+    timeout = 10
+
+    def requires(u):
+        return matches(u, GRAMMAR)
+
+    def run(u):
+        use_extended_regex_model()
+        url = URL.parse(u)
+        return url.channel is not None, url.stream is not None
+
+    def ensures_some_part(result):
+        return result[0] or result[1]
+
+    def ensures_channel_iff_at_sign(u, result):
+        return result[0] == (not matches(u, '[^@]*'))
+
+    def samples():
+        for scheme, shape, cmod, smod in url_shapes():
+            yield dict(u=build_url(scheme, shape, cmod, smod, 'cé', '1' if cmod else '', 's.x', '2' if smod else ''))
+
+
+@proof("C16", "url.rejects-final-newline")
+class UrlRejectsFinalNewline:
+    """BOUNDED, and EXPECTED TO FAIL on the pinned tree (known finding F11): a valid URL followed by a newline is not in the
+    grammar and must be rejected; the real pattern ends with `$`, which matches before a final newline."""
+    bounded_only = True
+    inputs = dict(u=TStr())
+    note = "48 shapes of valid URL + one newline"
+
+    def requires(u):
+        return f11_final_newline(u)
+
+    def run(u):
+        return URL.parse(u)
+
+    def ensures_never_returns(result):
+        return False
+
+    raises = {ValueError: True}
+
+    def samples():
+        yield dict(u='lbry://foo\n')
+        for scheme, shape, cmod, smod in url_shapes():
+            yield dict(u=build_url(scheme, shape, cmod, smod, 'c', '1' if cmod else '', 's', '2' if smod else '') + '\n')
+
+
+# ====================================================================================================
+# BOUNDED stand-ins (run-time contract checks with CPython and the real protobuf classes; no deductive part):
+# claims assembled through the metadata API, language tags, raw hash accessors, the two legacy encodings
+# ====================================================================================================
+from decimal import Decimal     # noqa: E402
+
+# ---------------------------------------------------------------------------------------------- building
+
+TEXTS = ['', 'plain text', 'café 中文 \U0001F600', 'line1\nline2\t\x00end', 'שלום é', 'x' * 1000,
+         '{"looks": "like json"}', '\x01\x00']
+ADDRESS = 'bPwGA9h7uijoy5uAvzVPQw9QyLoYZehHJo'
+ADDRESS2 = 'bJUQ9MxS9N6M29zsA5GTpVSDzsnPjMBBX9'
+UNIT = {'LBC': 10 ** 8, 'BTC': 10 ** 8, 'USD': 100}
+
+
+def hexof(seed, n):
+    return ''.join('%02x' % ((seed * 31 + i * 7) % 256) for i in range(n))
+
+
+def build_claim(kind, how, f):
+    """assemble a claim of `kind` from the field dict `f` through the metadata API: how='update' uses <Type>.update(**kwargs)
+    (what the daemon calls), how='setters' uses the typed property setters / list appends"""
+    from lbry.schema.claim import Claim
+    claim = Claim()
+    obj = getattr(claim, kind)
+    f = dict(f)
+    if how == 'update':
+        kw = {}
+        for k, v in f.items():
+            if k == 'claims' or k == 'featured' or k in ('tags', 'languages', 'locations'):
+                kw[k] = list(v)
+            elif k in ('claim_id', 'media'):
+                continue
+            else:
+                kw[k] = v
+        obj.update(**kw)
+        if 'claim_id' in f:
+            obj.reference.claim_id = f['claim_id']
+        return claim
+    for k, v in f.items():
+        if k in ('title', 'description', 'author', 'license', 'license_url', 'release_time', 'email', 'website_url', 'public_key'):
+            setattr(obj, k, v)
+        elif k == 'thumbnail_url':
+            obj.thumbnail.url = v
+        elif k == 'cover_url':
+            obj.cover.url = v
+        elif k in ('tags', 'languages', 'locations', 'featured', 'claims'):
+            lst = getattr(obj, k)
+            for item in v:
+                lst.append(item)
+        elif k == 'claim_id':
+            obj.reference.claim_id = v
+        elif k == 'sd_hash':
+            obj.source.sd_hash = v
+        elif k == 'bt_infohash':
+            obj.source.bt_infohash = v
+        elif k == 'file_hash':
+            obj.source.file_hash = v
+        elif k == 'file_name':
+            obj.source.name = v
+        elif k == 'file_size':
+            obj.source.size = v
+        elif k == 'media_type':
+            obj.source.media_type = v
+        elif k in ('fee_currency', 'fee_amount', 'fee_address', 'width', 'height', 'duration', 'media'):
+            pass
+        else:
+            raise KeyError(k)
+    if 'fee_amount' in f:
+        obj.fee.update(f.get('fee_address'), f.get('fee_currency'), f['fee_amount'])
+    media = f.get('media')
+    if media == 'video':
+        obj.video.width, obj.video.height, obj.video.duration = f['width'], f['height'], f['duration']
+    elif media == 'image':
+        obj.image.dimensions = (f['width'], f['height'])
+    elif media == 'audio':
+        obj.audio.duration = f['duration']
+    return claim
+
+
+def observe(claim):
+    """everything the typed accessors show"""
+    kind = claim.claim_type
+    out = dict(kind=kind, is_signed=claim.is_signed, signing_channel_hash=claim.signing_channel_hash, signature=claim.signature,
+               signing_channel_id=claim.signing_channel_id)
+    if kind is None:
+        return out
+    obj = getattr(claim, kind)
+    out.update(title=obj.title, description=obj.description, thumbnail_url=obj.thumbnail.url, tags=list(obj.tags),
+               languages=obj.langtags,
+               locations=[(l.country, l.state, l.city, l.code, l.latitude, l.longitude) for l in obj.locations],
+               location_dicts=[l.to_dict() for l in obj.locations])
+    if kind == 'stream':
+        out.update(author=obj.author, license=obj.license, license_url=obj.license_url, release_time=obj.release_time,
+                   has_fee=obj.has_fee, has_source=obj.has_source,
+                   sd_hash=obj.source.sd_hash, file_hash=obj.source.file_hash, bt_infohash=obj.source.bt_infohash,
+                   file_name=obj.source.name, file_size=obj.source.size, media_type=obj.source.media_type,
+                   stream_type=obj.stream_type)
+        if obj.has_fee:
+            out.update(fee_currency=obj.fee.currency, fee_amount=obj.fee.amount, fee_address=obj.fee.address)
+        if obj.stream_type == 'video':
+            out.update(width=obj.video.width, height=obj.video.height, duration=obj.video.duration, dimensions=obj.video.dimensions)
+        elif obj.stream_type == 'image':
+            out.update(width=obj.image.width, height=obj.image.height, dimensions=obj.image.dimensions)
+        elif obj.stream_type == 'audio':
+            out.update(duration=obj.audio.duration)
+    elif kind == 'channel':
+        out.update(email=obj.email, website_url=obj.website_url, cover_url=obj.cover.url, public_key=obj.public_key,
+                   public_key_bytes=obj.public_key_bytes, featured=obj.featured.ids)
+    elif kind == 'repost':
+        out.update(claim_id=obj.reference.claim_id, claim_hash=obj.reference.claim_hash)
+    elif kind == 'collection':
+        out.update(claims=obj.claims.ids)
+    return out
+
+
+def num(x):
+    return Decimal(0) if x is None else Decimal(x)
+
+
+def expected_location(v):
+    """(country, state, city, code, latitude, longitude) of a location given as a dict or as 'country:state:city:code:lat:long'"""
+    if isinstance(v, str):
+        parts = (v.split(':') + [''] * 6)[:6]
+        v = dict(zip(('country', 'state', 'city', 'code', 'latitude', 'longitude'), parts))
+    return (v.get('country') or None, v.get('state', ''), v.get('city', ''), v.get('code', ''),
+            num(v.get('latitude') or None), num(v.get('longitude') or None))
+
+
+def field_mismatches(f, got):
+    """compare what the accessors show with what was set (fields not set must show the protobuf default)"""
+    bad = []
+
+    def chk(name, exp, val=None):
+        val = got.get(name) if val is None else val
+        if val != exp:
+            bad.append((name, exp, val))
+    for k in ('title', 'description', 'thumbnail_url'):
+        chk(k, f.get(k, ''))
+    chk('tags', list(f.get('tags', [])))
+    chk('languages', list(f.get('languages', [])))
+    exp_loc = [expected_location(v) for v in f.get('locations', [])]
+    got_loc = [(c, s, ci, co, num(la), num(lo)) for (c, s, ci, co, la, lo) in got['locations']]
+    chk('locations', exp_loc, got_loc)
+    # each coordinate on its own: a non-zero coordinate reads back as what was set whatever the other one is (a zero one may
+    # read None / be absent: proto3 default), through the accessor and through to_dict()
+    chk('location_dicts', [(la, lo) for (_, _, _, _, la, lo) in exp_loc],
+        [(num(d.get('latitude')), num(d.get('longitude'))) for d in got['location_dicts']])
+    for (_, _, _, _, la, lo), (_, _, _, _, gla, glo), d in zip(exp_loc, got['locations'], got['location_dicts']):
+        if la != 0 and (gla is None or 'latitude' not in d):
+            bad.append(('latitude lost', la, gla))
+        if lo != 0 and (glo is None or 'longitude' not in d):
+            bad.append(('longitude lost', lo, glo))
+    kind = got['kind']
+    if kind == 'stream':
+        for k in ('author', 'license', 'license_url', 'file_name'):
+            chk(k, f.get(k, ''))
+        for k in ('release_time', 'file_size'):
+            chk(k, f.get(k, 0))
+        for k in ('sd_hash', 'file_hash', 'bt_infohash'):
+            chk(k, f.get(k, ''))
+        if 'media_type' in f:
+            chk('media_type', f['media_type'])
+        if 'fee_amount' in f:
+            chk('has_fee', True)
+            chk('fee_currency', f['fee_currency'].upper())
+            chk('fee_amount', Decimal(f['fee_amount']), Decimal(got.get('fee_amount', -1)))
+            chk('fee_address', f.get('fee_address'))
+        else:
+            chk('has_fee', False)
+        if f.get('media'):
+            # a file called *.mp4 / *.png / *.mp3 is a video / an image / audio, and carries the dimensions that were given
+            chk('stream_type', f['media'])
+            for k in {'video': ('width', 'height', 'duration'), 'image': ('width', 'height'), 'audio': ('duration',)}[f['media']]:
+                chk(k, f[k])
+            if f['media'] != 'audio':
+                chk('dimensions', (f['width'], f['height']))
+    elif kind == 'channel':
+        for k in ('email', 'website_url', 'cover_url'):
+            chk(k, f.get(k, ''))
+        if 'public_key' in f:
+            chk('public_key', f['public_key'])
+            chk('public_key_bytes', unhexlify(f['public_key']))
+        chk('featured', list(f.get('featured', [])))
+    elif kind == 'repost':
+        chk('claim_id', f.get('claim_id', ''))
+    elif kind == 'collection':
+        chk('claims', list(f.get('claims', [])))
+    return bad
+
+
+def plain_mismatches(f, kind, payload):
+    """compare with a plain protobuf parse of the message bytes (generated schema classes only)"""
+    from lbry.schema.types.v2.claim_pb2 import Claim as CM, Fee as FM, Language as LM, Location as LocM
+    m = CM()
+    m.ParseFromString(payload)
+    bad = []
+
+    def chk(name, exp, val):
+        if val != exp:
+            bad.append(('plain.' + name, exp, val))
+    chk('type', kind, m.WhichOneof('type'))
+    chk('title', f.get('title', ''), m.title)
+    chk('description', f.get('description', ''), m.description)
+    chk('thumbnail.url', f.get('thumbnail_url', ''), m.thumbnail.url)
+    chk('tags', list(f.get('tags', [])), list(m.tags))
+    chk('languages.count', len(f.get('languages', [])), len(m.languages))
+    for tag, lm in zip(f.get('languages', []), m.languages):
+        parts = tag.split('-')
+        chk(f'language[{tag}]', LM.Language.Value(parts[0]), lm.language)
+        rest = parts[1:]
+        script = rest.pop(0) if rest and len(rest[0]) == 4 else None
+        region = rest.pop(0) if rest else None
+        chk(f'script[{tag}]', LM.Script.Value(script) if script else 0, lm.script)
+        chk(f'region[{tag}]', LocM.Country.Value(('R' + region) if region and region.isdigit() else region) if region else 0, lm.region)
+    chk('locations.count', len(f.get('locations', [])), len(m.locations))
+    for v, lm in zip(f.get('locations', []), m.locations):
+        c, s, ci, co, la, lo = expected_location(v)
+        chk('location.country', LocM.Country.Value(c) if c else 0, lm.country)
+        chk('location.text', (s, ci, co), (lm.state, lm.city, lm.code))
+        chk('location.gps', (int(la * 10 ** 7), int(lo * 10 ** 7)), (lm.latitude, lm.longitude))
+    if kind == 'stream':
+        s = m.stream
+        chk('author', f.get('author', ''), s.author)
+        chk('license', f.get('license', ''), s.license)
+        chk('license_url', f.get('license_url', ''), s.license_url)
+        chk('release_time', f.get('release_time', 0), s.release_time)
+        chk('source.sd_hash', unhexlify(f.get('sd_hash', '')), s.source.sd_hash)
+        chk('source.hash', unhexlify(f.get('file_hash', '')), s.source.hash)
+        chk('source.bt_infohash', unhexlify(f.get('bt_infohash', '')), s.source.bt_infohash)
+        chk('source.name', f.get('file_name', ''), s.source.name)
+        chk('source.size', f.get('file_size', 0), s.source.size)
+        if 'fee_amount' in f:
+            cur = f['fee_currency'].upper()
+            chk('fee.currency', FM.Currency.Value(cur), s.fee.currency)
+            chk('fee.amount', int(Decimal(f['fee_amount']) * UNIT[cur]), s.fee.amount)
+        else:
+            chk('fee', False, s.HasField('fee'))
+    elif kind == 'channel':
+        c = m.channel
+        chk('email', f.get('email', ''), c.email)
+        chk('website_url', f.get('website_url', ''), c.website_url)
+        chk('cover.url', f.get('cover_url', ''), c.cover.url)
+        chk('public_key', unhexlify(f.get('public_key', '')), c.public_key)
+        chk('featured', [unhexlify(i)[::-1] for i in f.get('featured', [])], [r.claim_hash for r in c.featured.claim_references])
+    elif kind == 'repost':
+        chk('claim_hash', unhexlify(f.get('claim_id', ''))[::-1], m.repost.claim_hash)
+    elif kind == 'collection':
+        chk('claims', [unhexlify(i)[::-1] for i in f.get('claims', [])], [r.claim_hash for r in m.collection.claim_references])
+    return bad
+
+
+def claim_roundtrip(kind, how, f, signed):
+    from lbry.schema.claim import Claim
+    claim = build_claim(kind, how, f)
+    h, sig = bytes(range(40, 60)), bytes(range(100, 164))
+    if signed:
+        claim.signing_channel_hash = h
+        claim.signature = sig
+    raw = claim.to_bytes()
+    back = Claim.from_bytes(raw)
+    payload = raw[85:] if signed else raw[1:]
+    head_ok = raw[:85] == b'\x01' + h + sig if signed else raw[:1] == b'\x00'
+    same = (back.to_bytes() == raw and back.message == claim.message and back.claim_type == kind and back.is_signed == signed
+            and back.signing_channel_hash == (h if signed else None) and back.signature == (sig if signed else None)
+            and back.version == 2 and payload == claim.message.SerializeToString())
+    return head_ok, same, field_mismatches(f, observe(back)), field_mismatches(f, observe(claim)), plain_mismatches(f, kind, payload)
+
+
+def claim_cases():
+    ids = [hexof(k, 20) for k in range(4)]
+    base = []
+    for i, t in enumerate(TEXTS):
+        base.append(dict(title=t, description=TEXTS[(i + 1) % len(TEXTS)], thumbnail_url='https://t/' + TEXTS[(i + 2) % 3]))
+    rep = [dict(), dict(tags=['a']), dict(tags=['one', 'two words', '3d', 'café', '中文'], languages=['en'],
+                                          locations=[dict(country='US')]),
+           dict(tags=['t%d' % i for i in range(12)], languages=['en', 'es-419', 'zh-Hant-TW', 'pt-BR', 'sr-Latn', 'en-Latn-US'],
+                locations=[dict(country='US', state='NH', city='Manchester', code='03101', latitude='42.990605', longitude='-71.460989'),
+                           'CA:ON:Toronto:M5V:43.6425:-79.3871', dict(country='UA', city='Київ'),
+                           dict(latitude='-90', longitude='180'), dict(latitude='0.0000001', longitude='-0.0000001'), 'AU']),
+           # exactly one coordinate set / the other zero or never set, both orders, boundaries
+           dict(tags=['gps'], locations=[dict(longitude='151.25'), dict(latitude='42.990605'), dict(latitude='0', longitude='-71.460989'),
+                                         dict(latitude='-33.5', longitude='0'), dict(latitude='0', longitude='180'),
+                                         dict(latitude='0.0', longitude='-180'), dict(latitude='90', longitude='0'), dict(latitude='-90'),
+                                         ':::::151.25', '::::42.5:', '::::0:-179.9999999', 'EC::::0:-78.4678',
+                                         dict(country='GB', city='Greenwich', latitude='51.4779', longitude='0')]),
+           dict(locations=[dict(longitude='0.0000001'), dict(latitude='-0.0000001')])]
+    # streams
+    streams = []
+    ints = [(0, 0, 0, 0, 0), (1, 1, 1, 2, 3), (-1, 2 ** 32, 2 ** 32 - 1, 2 ** 32 - 2, 2 ** 32 - 3), (2 ** 63 - 1, 2 ** 64 - 1, 1920, 1080, 3600),
+            (-2 ** 63, 2 ** 63, 7, 9, 11), (1577836800, 123456789, 640, 480, 59)]
+    fees = [None, ('lbc', '0.00000001'), ('LBC', '1.01'), ('lbc', '184467440737.09551615'), ('btc', '0.5'), ('BTC', '21000000'),
+            ('usd', '0.01'), ('USD', '9.99'), ('usd', '184467440737095516.15'), ('usd', '1'), ('lbc', '100')]
+    names = [('video.mp4', 'video'), ('picture.png', 'image'), ('song.mp3', 'audio'), ('doc.pdf', None), ('noextension', None),
+             ('clé.mp4', 'video')]
+    for i in range(24):
+        rt, size, w, h, d = ints[(i + i // 6) % len(ints)]
+        f = dict(base[i % len(base)])
+        f.update(rep[i % len(rep)])
+        f.update(author=TEXTS[(i + 3) % len(TEXTS)], license=TEXTS[(i + 4) % len(TEXTS)], license_url='https://l/' + str(i),
+                 release_time=rt, file_size=size, file_name=names[i % len(names)][0], media=names[i % len(names)][1],
+                 width=w, height=h, duration=d, file_hash=hexof(i + 7, 48))
+        if i % 3 == 2:
+            f['bt_infohash'] = hexof(i, 20)
+        else:
+            f['sd_hash'] = hexof(i, 48)
+        fee = fees[i % len(fees)]
+        if fee:
+            f.update(fee_currency=fee[0], fee_amount=fee[1], fee_address=ADDRESS if i % 2 else ADDRESS2)
+        streams.append(f)
+    streams.append(dict())
+    streams.append(dict(title='only a title'))
+    for f in streams:
+        for how in ('update', 'setters'):
+            for signed in (False, True):
+                yield dict(kind='stream', how=how, f=f, signed=signed)
+    # channels
+    keys = [hexof(k, 33) for k in (1, 2)] + ['02' + 'ff' * 32, '03' + '00' * 32]
+    for i in range(6):
+        f = dict(base[i % len(base)])
+        f.update(rep[i % len(rep)])
+        f.update(email=TEXTS[(i + 1) % 3] + '@x.io', website_url='https://w/' + TEXTS[i % 3], cover_url='https://c/' + str(i),
+                 public_key=keys[i % len(keys)], featured=ids[:i % 4])
+        for how in ('update', 'setters'):
+            for signed in (False, True):
+                yield dict(kind='channel', how=how, f=f, signed=signed)
+    # reposts and collections
+    for i in range(4):
+        f = dict(base[i])
+        f.update(rep[i % len(rep)])
+        for how in ('update', 'setters'):
+            for signed in (False, True):
+                yield dict(kind='repost', how=how, f=dict(f, claim_id=ids[i]), signed=signed)
+                yield dict(kind='collection', how=how, f=dict(f, claims=(ids * 3)[:i * 3]), signed=signed)
+
+
+
+
+# ---------------------------------------------------------------------------------------------- languages
+
+def language_roundtrip(langtag):
+    from lbry.schema.claim import Claim, Stream
+    from lbry.schema.types.v2.claim_pb2 import Claim as CM
+    s = Stream()
+    s.languages.append(langtag)
+    raw = s.claim.to_bytes()
+    back = Claim.from_bytes(raw)
+    lang = back.stream.languages[0]
+    return back.stream.langtags, (lang.language, lang.script, lang.region), len(CM.FromString(raw[1:]).languages)
+
+
+def expected_language(langtag):
+    parts = langtag.split('-')
+    language = parts.pop(0)
+    script = parts.pop(0) if parts and len(parts[0]) == 4 else None
+    region = parts.pop(0) if parts else None
+    return language, script, region
+
+
+def language_cases():
+    from lbry.schema.types.v2.claim_pb2 import Language as LM, Location as LocM
+    langs = [n for n, v in LM.Language.items() if v]
+    scripts = [n for n, v in LM.Script.items() if v]
+    regions = [(n[1:] if len(n) == 4 and n[0] == 'R' and n[1:].isdigit() else n) for n, v in LocM.Country.items() if v]
+    for l in langs:
+        yield dict(langtag=l)
+    for s in scripts:
+        yield dict(langtag='en-' + s)
+    for r in regions:
+        yield dict(langtag='en-' + r)
+    for i, r in enumerate(regions):
+        yield dict(langtag=langs[i % len(langs)] + '-' + scripts[i % len(scripts)] + '-' + r)
+
+
+def f16_region(langtag):
+    return len(langtag.split('-')) > 1 and langtag.split('-')[-1] in ('RE', 'RO', 'RS', 'RU', 'RW')
+
+
+# ---------------------------------------------------------------------------------------------- raw hash accessors
+
+def hash_bytes_roundtrip(field, value):
+    from lbry.schema.claim import Claim, Stream
+    s = Stream()
+    setattr(s.source, field, value)
+    back = Claim.from_bytes(s.claim.to_bytes())
+    return getattr(s.source, field), getattr(back.stream.source, field)
+
+
+# ---------------------------------------------------------------------------------------------- legacy
+
+def legacy_json_bytes(v):
+    import json
+    d = {}
+    for k in ('title', 'description', 'author', 'license', 'license_url', 'language', 'thumbnail', 'nsfw', 'ver'):
+        if k in v:
+            d[k] = v[k]
+    if 'content_type' in v:
+        d[v.get('content_type_key', 'content_type')] = v['content_type']
+    d['sources'] = {'lbry_sd_hash': v['sd_hash']}
+    if 'fee' in v:
+        cur, amount, address = v['fee']
+        d['fee'] = {cur: {'amount': amount, 'address': address}}
+    return json.dumps(d).encode()
+
+
+def legacy_v1_bytes(v):
+    from lbry.schema.types.v1.legacy_claim_pb2 import Claim as Old
+    from lbry.schema.types.v1.metadata_pb2 import Metadata
+    from lbry.schema.types.v1.fee_pb2 import Fee
+    old = Old()
+    old.version = 1
+    if 'public_key' in v:
+        old.claimType = 2
+        old.certificate.version = 1
+        old.certificate.keyType = 3
+        old.certificate.publicKey = v['public_key']
+        return old.SerializeToString()
+    old.claimType = 1
+    old.stream.version = 1
+    md = old.stream.metadata
+    md.version = 4
+    md.language = Metadata.Language.Value(v.get('language', 'en'))
+    md.title, md.description, md.author, md.license = v['title'], v['description'], v['author'], v['license']
+    md.nsfw = v.get('nsfw', False)
+    if 'thumbnail' in v:
+        md.thumbnail = v['thumbnail']
+    if 'license_url' in v:
+        md.licenseUrl = v['license_url']
+    if 'fee' in v:
+        cur, amount, address = v['fee']
+        md.fee.version = 1
+        md.fee.currency = Fee.Currency.Value(cur)
+        md.fee.amount = amount
+        md.fee.address = address
+    src = old.stream.source
+    src.version = 1
+    src.sourceType = 1
+    src.source = unhexlify(v['sd_hash'])
+    src.contentType = v['content_type']
+    if 'signature' in v:
+        sig = old.publisherSignature
+        sig.version = 1
+        sig.signatureType = 3
+        sig.signature = v['signature']
+        sig.certificateId = v['certificate_id']
+    return old.SerializeToString()
+
+
+def legacy_decode(encoding, v):
+    from lbry.schema.claim import Claim
+    raw = legacy_json_bytes(v) if encoding == 'json' else legacy_v1_bytes(v)
+    claim = Claim.from_bytes(raw)
+    return raw, claim.version, observe(claim)
+
+
+def legacy_mismatches(encoding, v, version, got):
+    from lbry.crypto.base58 import Base58
+    bad = []
+
+    def chk(name, exp, val):
+        if val != exp:
+            bad.append((name, exp, val))
+    chk('version', 0 if encoding == 'json' else 1, version)
+    if 'public_key' in v:
+        chk('kind', 'channel', got['kind'])
+        if len(v['public_key']) == 33:
+            chk('public_key_bytes', v['public_key'], got['public_key_bytes'])
+        return bad
+    chk('kind', 'stream', got['kind'])
+    for k in ('title', 'description', 'author', 'license'):
+        chk(k, v.get(k, ''), got[k])
+    chk('license_url', v.get('license_url', ''), got['license_url'])
+    chk('thumbnail_url', v.get('thumbnail', ''), got['thumbnail_url'])
+    chk('sd_hash', v['sd_hash'], got['sd_hash'])
+    chk('media_type', v.get('content_type') or 'application/octet-stream', got['media_type'])
+    lang = v.get('language', '' if encoding == 'json' else 'en')
+    chk('languages', ['en' if lang.lower() == 'english' else lang] if lang else [], got['languages'])
+    chk('tags', ['mature'] if v.get('nsfw') else [], got['tags'])
+    if 'fee' in v:
+        cur, amount, address = v['fee']
+        chk('has_fee', True, got['has_fee'])
+        chk('fee_currency', cur, got.get('fee_currency'))
+        chk('fee_amount', Decimal(str(amount)), Decimal(got.get('fee_amount', -1)))
+        chk('fee_address', address if isinstance(address, str) else Base58.encode(address), got.get('fee_address'))
+    else:
+        chk('has_fee', False, got['has_fee'])
+    if 'signature' in v:
+        chk('is_signed', True, got['is_signed'])
+        chk('signature', v['signature'], got['signature'])
+        chk('signing_channel_id', hexlify(v['certificate_id']).decode(), got['signing_channel_id'])
+    else:
+        chk('is_signed', False, got['is_signed'])
+    return bad
+
+
+def legacy_cases():
+    for i in range(8):
+        v = dict(title=TEXTS[i % len(TEXTS)], description=TEXTS[(i + 1) % len(TEXTS)], author=TEXTS[(i + 2) % len(TEXTS)],
+                 license=TEXTS[(i + 3) % len(TEXTS)], sd_hash=hexof(i, 48), content_type=('video/mp4', 'application/x-msdownload', 'image/png')[i % 3])
+        if i % 2:
+            v.update(license_url='https://l/' + str(i), thumbnail='https://t/' + TEXTS[i % 3])
+        if i % 3 == 1:
+            v['nsfw'] = True
+        if i % 3 == 2:
+            v['nsfw'] = False
+        j = dict(v, language=('en', 'English', 'es', 'english')[i % 4], ver='0.0.3')
+        if i % 4 == 3:
+            j['content_type_key'] = 'content-type'
+        if i in (1, 2, 3, 5):
+            j['fee'] = (('LBC', 'USD', 'BTC')[i % 3], (1.0, 10, 0.25, 2.5, 1.99, 15)[i], ADDRESS)
+        yield dict(encoding='json', v=j)
+        p = dict(v, language=('en', 'es', 'ja', 'ru')[i % 4])
+        if i in (1, 2, 3, 5):
+            from lbry.crypto.base58 import Base58
+            p['fee'] = (('LBC', 'USD', 'BTC')[i % 3], (1.0, 10.0, 0.25, 2.5, 0.5, 15.0)[i], Base58.decode(ADDRESS))
+        if i % 2 == 0:
+            p.update(signature=bytes(range(i, i + 64)), certificate_id=unhexlify(hexof(i + 1, 20)))
+        yield dict(encoding='v1', v=p)
+    yield dict(encoding='v1', v=dict(public_key=bytes(range(33))))
+    yield dict(encoding='v1', v=dict(public_key=b'\x02' + b'\xff' * 32))
+    # json without optional keys
+    yield dict(encoding='json', v=dict(sd_hash=hexof(9, 48)))
+
+
+def f16_json_float_fee(encoding, v):
+    """known finding F16.4: a legacy JSON fee amount written as a number that is not exactly representable in binary"""
+    return (encoding == 'json' and 'fee' in v and isinstance(v['fee'][1], float)
+            and Decimal(v['fee'][1]) != Decimal(str(v['fee'][1])))
+
+
+@proof("C16", "claim.roundtrip")
+class ClaimRoundTrip:
+    """BOUNDED stand-in (protobuf field plumbing of attrs.py / claim.py is outside the generator's reach): stream, channel,
+    repost and collection claims assembled through <Type>.update(**kwargs) and through the typed setters, unsigned and signed,
+    serialise to version byte [+ hash + signature] + message, parse back to an equal object (same bytes again, equal message,
+    same type and signature fields), and every accessor of the parsed claim shows what was set; the same values are found by a
+    plain protobuf parse of the message bytes (hash bytes, integer fee units, enum numbers, reversed claim hashes)"""
+    bounded_only = True
+    inputs = dict(kind=TStr(), how=TStr(), f=TDict(), signed=TBool())
+    note = ("108 claims: 8 unicode texts (empty, accents/CJK/astral, controls, RTL, 1000 chars, JSON look-alike) x boundary integers "
+            "(release_time +-2**63, size 2**64-1, dimensions 2**32-1) x 10 fees over LBC/BTC/USD up to 2**64-1 units x 0..12 tags, "
+            "0..6 languages, 0..6 locations, 0..9 references x update()/setters x unsigned/signed")
+
+    def run(kind, how, f, signed):
+        return claim_roundtrip(kind, how, f, signed)
+
+    def ensures_envelope(result):
+        return result[0]
+
+    def ensures_parses_back_equal(result):
+        return result[1]
+
+    def ensures_fields_read_back(result):
+        return result[2] == [] and result[3] == []
+
+    def ensures_same_as_plain_protobuf_parse(result):
+        return result[4] == []
+
+    def samples():
+        return claim_cases()
+
+
+@proof("C16", "claim.languages")
+class ClaimLanguages:
+    """BOUNDED stand-in: every language tag language[-Script][-REGION] of the schema's enumerations that is appended to a claim
+    reads back as the same tag and the same parts after a round trip.  EXPECTED TO FAIL for the regions RE, RO, RS, RU, RW
+    (known finding F16.2)."""
+    bounded_only = True
+    inputs = dict(langtag=TStr())
+    note = "all 184 languages, 199 scripts, 529 regions (2-letter and UN M.49 numeric), and 529 language-Script-REGION combinations"
+
+    def run(langtag):
+        return language_roundtrip(langtag)
+
+    def ensures_tag_read_back(langtag, result):
+        return result[0] == [langtag]
+
+    def ensures_parts_read_back(langtag, result):
+        return result[1] == expected_language(langtag) and result[2] == 1
+
+    def samples():
+        return language_cases()
+
+
+@proof("C16", "claim.hash-bytes")
+class ClaimHashBytes:
+    """BOUNDED stand-in: the raw-bytes accessors of the stream source (sd_hash_bytes, file_hash_bytes, bt_infohash_bytes) return
+    the bytes that were set, before and after a round trip.  EXPECTED TO FAIL for bt_infohash_bytes (known finding F16.3)."""
+    bounded_only = True
+    inputs = dict(field=TStr(), value=TBytes())
+    note = "3 accessors x 4 byte strings (ascending, high bytes, ASCII letters, zeros)"
+
+    def run(field, value):
+        return hash_bytes_roundtrip(field, value)
+
+    def ensures_bytes_read_back(value, result):
+        return result[0] == value and result[1] == value
+
+    def samples():
+        for field, n in (('sd_hash_bytes', 48), ('file_hash_bytes', 48), ('bt_infohash_bytes', 20)):
+            for value in (bytes(range(n)), bytes(range(256 - n, 256)), b'a' * n, b'\x00' * (n - 1) + b'\x01'):
+                yield dict(field=field, value=value)
+
+
+@proof("C16", "claim.legacy")
+class ClaimLegacy:
+    """BOUNDED stand-in: claims in the two legacy encodings (version 0: JSON text; version 1: the v1 protobuf schema, built
+    here with the generated v1 classes) still decode through Claim.from_bytes, to a claim showing the title, description,
+    author, license, licence URL, thumbnail, language, content type, stream hash, nsfw flag (tag 'mature'), fee and signature
+    that the legacy claim carries; plus the six vectors of the upstream test-suite.  EXPECTED TO FAIL for JSON fee amounts
+    written as non-dyadic numbers (known finding F16.4)."""
+    bounded_only = True
+    inputs = dict(encoding=TStr(), v=TDict())
+    note = "8 JSON + 8 v1 stream claims (texts as above, 3 currencies, signed/unsigned), 2 v1 certificates, minimal JSON, 7 JSON float fees"
+
+    def run(encoding, v):
+        raw, version, got = legacy_decode(encoding, v)
+        return legacy_mismatches(encoding, v, version, got), raw[:1]
+
+    def ensures_decodes_to_what_the_legacy_claim_carries(result):
+        return result[0] == []
+
+    def ensures_not_mistaken_for_current_format(result):
+        return result[1] not in (b'\x00', b'\x01')
+
+    def samples():
+        for c in legacy_cases():
+            yield c
+        for cur, amount in (('LBC', 0.29), ('USD', 0.07), ('USD', 1.1), ('BTC', 0.57), ('LBC', 1.1), ('USD', 4.35), ('LBC', 0.5)):
+            yield dict(encoding='json', v=dict(title='t', sd_hash=hexof(3, 48), fee=(cur, amount, ADDRESS)))
+
+
+UPSTREAM_VECTORS = [
+    # (bytes, expected accessor values) copied from tests/unit/schema/test_claim_from_bytes.py of the pinned tree
+    (b'{"fee": {"LBC": {"amount": 1.0, "address": "bPwGA9h7uijoy5uAvzVPQw9QyLoYZehHJo"}}, "description": "10MB test file to measure '
+     b'download speed on Lbry p2p-network.", "license": "None", "author": "root", "language": "English", "title": "10MB speed test '
+     b'file", "sources": {"lbry_sd_hash": "bbd1f68374ff9a1044a90d7dd578ce41979211c386caf19e6f496536db5f2c96b58fe2c7a6677b331419a117'
+     b'873b539f"}, "content-type": "application/octet-stream", "thumbnail": "/home/robert/lbry/speed.jpg"}',
+     dict(title='10MB speed test file', description='10MB test file to measure download speed on Lbry p2p-network.', license='None',
+          author='root', languages=['en'], media_type='application/octet-stream', thumbnail_url='/home/robert/lbry/speed.jpg',
+          sd_hash='bbd1f68374ff9a1044a90d7dd578ce41979211c386caf19e6f496536db5f2c96b58fe2c7a6677b331419a117873b539f',
+          fee_address='bPwGA9h7uijoy5uAvzVPQw9QyLoYZehHJo', fee_amount=Decimal(1), fee_currency='LBC')),
+    (unhexlify(
+        b'080110011ad6010801127c080410011a08727067206d69646922046d6964692a08727067206d696469322e437265617469766520436f6d6d6f6e7320'
+        b'4174747269627574696f6e20342e3020496e7465726e6174696f6e616c38004224080110011a19553f00bc139bbf40de425f94d51fffb34c1bea6d91'
+        b'71cd374c25000070414a0052005a001a54080110011a301f41eb0312aa7e8a5ce49349bc77d811da975833719d751523b19f123fc3d528d6a94e3446'
+        b'ccddb7b9329f27a9cad7e3221c6170706c69636174696f6e2f782d7a69702d636f6d70726573736564'),
+     dict(title='rpg midi', description='midi', license='Creative Commons Attribution 4.0 International', author='rpg midi',
+          languages=['en'], media_type='application/x-zip-compressed',
+          sd_hash='1f41eb0312aa7e8a5ce49349bc77d811da975833719d751523b19f123fc3d528d6a94e3446ccddb7b9329f27a9cad7e3',
+          fee_address='bJUQ9MxS9N6M29zsA5GTpVSDzsnPjMBBX9', fee_amount=Decimal(15), fee_currency='LBC')),
+    (unhexlify(
+        b'08011002225e0801100322583056301006072a8648ce3d020106052b8104000a034200043878b1edd4a1373149909ef03f4339f6da9c2bd2214c040f'
+        b'd2e530463ffe66098eca14fc70b50ff3aefd106049a815f595ed5a13eda7419ad78d9ed7ae473f17'),
+     dict(kind='channel', public_key='033878b1edd4a1373149909ef03f4339f6da9c2bd2214c040fd2e530463ffe6609')),
+]
+
+
+@proof("C16", "claim.legacy-vectors")
+class ClaimLegacyVectors:
+    """BOUNDED stand-in: recorded legacy claims from the upstream test-suite decode to the recorded values"""
+    bounded_only = True
+    inputs = dict(index=TInt())
+    note = "3 recorded claims (JSON with fee, v1 stream with fee, v1 certificate with a DER public key)"
+
+    def run(index):
+        raw, expected = UPSTREAM_VECTORS[index]
+        got = observe(Claim.from_bytes(raw))
+        return [(k, v, got.get(k)) for k, v in expected.items() if got.get(k) != v]
+
+    def ensures_recorded_values(result):
+        return result == []
+
+    def samples():
+        for i in range(len(UPSTREAM_VECTORS)):
+            yield dict(index=i)
+
+
+NORMAL_TAGS = ['a', 'two words', '3d printing', 'café', '中文', 'x' * 50, 'a-b_c.d', 'ünï cödé']
+
+
+@proof("C16", "claim.tags")
+class ClaimTags:
+    """BOUNDED stand-in: tags in normal form (lower case, single inner spaces, none of # ! ~ ') are kept exactly, in order, through
+    update() and a round trip; whatever was stored is stable (storing the read-back list again gives the same list)"""
+    bounded_only = True
+    inputs = dict(tags=TList(TStr()))
+    note = "prefixes and rotations of 8 normal-form tags; 6 lists of arbitrary tags for stability"
+
+    def run(tags):
+        from lbry.schema.claim import Stream
+        s = Stream()
+        s.update(tags=list(tags))
+        back = Claim.from_bytes(s.claim.to_bytes())
+        first = list(back.stream.tags)
+        s2 = Stream()
+        s2.update(tags=list(first))
+        return first, list(s2.tags)
+
+    def ensures_normal_tags_kept(tags, result):
+        normal = all(t in NORMAL_TAGS for t in tags) and len(set(tags)) == len(tags)
+        return (not normal) or result[0] == list(tags)
+
+    def ensures_stable(result):
+        return result[1] == result[0]
+
+    def samples():
+        for i in range(len(NORMAL_TAGS) + 1):
+            yield dict(tags=NORMAL_TAGS[:i])
+            yield dict(tags=NORMAL_TAGS[i:] + NORMAL_TAGS[:i])
+        for tags in (['Anime', 'anime', ' aNiMe', 'maNGA '], ["it's", 'c#', 'a  b', '!x~'], [''], ['  '], ['A' * 300], ['ǅ', 'İ', 'ß']):
+            yield dict(tags=tags)
+
+
+TRUSTED = [
+    "protobuf (deductive part): SerializeToString is a function of the field values, ParseFromString of those bytes restores "
+    "the field values, parsing either succeeds or raises DecodeError (modelled as uninterpreted functions pb_<type>_serialize / "
+    "_field<i> / _wellformed with ground inverse instances; the real library is exercised by every run-time case)",
+    "bytearray(): append(int) / extend(bytes) / bytes(x) concatenate (model in this file: engine gap C16_1); protobuf enum "
+    "Name()/Value() are table look-ups (run natively on concrete arguments: engine gap C16_4)",
+    "binascii.hexlify/unhexlify are inverse on lower-case hex strings of even length, bytes[::-1] is a length-preserving "
+    "involution (pyvc ground axioms)",
+    "re.match (model `_re_match_ext` in this file, engine gap C16_2): a backtracking matcher finds a match whenever one exists, "
+    "so if the alternatives obtained by expanding optional groups/branches are pairwise disjoint languages (obligation), cover "
+    "the pattern (obligation) and each splits uniquely (syntactic class-disjointness check of pyvc.regex), the groups are the "
+    "parts of that unique split and groups outside the alternative are None; `^` / `$` as in pyvc.regex ($ = end or before one "
+    "final newline).  The split used on a path is guessed from one concrete instance with CPython's re and must be proved valid "
+    "for all instances (obligation regex-split-valid)",
+    "str(x) of a NamedTuple instance calls the class's __str__ (model in this file: engine gap C16_3)",
+    "decimal: str(Decimal(n) / Decimal('10000000')) for an int n of at most 10 digits is a decimal string whose exact value is "
+    "n / 10**7 (uninterpreted string with exact inverse, model in this file; the real module runs in every run-time case)",
+    "SMT strings are sequences of code points up to U+2FFFF; characters of planes 3..16 are covered by run-time cases only",
+]
+NOT_DECIDED = [
+    "deductively: the protobuf field plumbing of attrs.py / claim.py beyond the accessors listed in the docstring (oneof "
+    "handling, update() keyword routing, repeated-field wrappers, Decimal fee conversion, language/location parsing, mime types "
+    "and file inspection) and both legacy decoders of compat.py — bounded stand-ins claim.* only",
+    "Stream.update(file_path=...) (reads files, hachoir metadata), to_dict()/MessageToDict output, Channel.public_key_bytes for "
+    "DER-encoded legacy keys beyond the recorded vector",
+    "legacy v1 fee amounts that are not exactly representable as float32 (the format itself stores a binary float)",
+    "fee amounts with more decimals than the unit (truncated / rounded up by design), fee amounts given as float",
+    "group contents for flat (unstructured) URL strings: url.accepts proves acceptance and the channel flag only; parts and "
+    "printing are proved for URLs built from parts (url.parse-print)",
+    "tag normalisation rules of tags.py (only: normal-form tags are kept, stored lists are stable)",
+    "latitude/longitude 0 reads back as None (proto3 default); compared numerically, not flagged",
+]
+ASSUMPTIONS = [
+    "signed objects carry a 20-byte channel hash and a 64-byte signature (what Output.sign produces)",
+    "claim ids are 40 lower-case hex digits, stream hashes 96, torrent info hashes 40 (upper-case input reads back lower-case)",
+    "deductive URL clauses exclude strings that are a valid URL plus one final newline (known finding F11, reported separately)",
+    "the URL grammar is read from the statement and https://spec.lbry.com: optional 'lbry://', '@'-prefixed channel and/or stream "
+    "name, each with optional ':'/'#' + 1..40 lower-case hex digits or '$' + positive integer without leading zero; names exclude "
+    "= & # : $ @ % ? ; \" / \\ < > { } | ^ ~ ` [ ], U+0000..U+0020, surrogates, U+FFFE, U+FFFF (query strings are not part of it)",
+]
